@@ -181,7 +181,8 @@ pub fn worker(ctx: &mut Ctx) {
                     };
                     ctx_toks.push(harper_core::FatStringToken { content, kind });
                 }
-                let kinds = [harper_core::linting::LintKind::Spelling, harper_core::linting::LintKind::Miscellaneous, harper_core::linting::LintKind::Formatting];
+                use harper_core::linting::LintKind as LK;
+                let kinds = [LK::Spelling, LK::Capitalization, LK::Style, LK::Formatting, LK::Repetition, LK::Enhancement, LK::Readability, LK::WordChoice, LK::Miscellaneous, LK::Punctuation];
                 recs.push(Record::now(RecordKind::Lint { kind: *r.pick(&kinds), context: ctx_toks }));
             }
             if r.chance(1, 3) {
